@@ -249,6 +249,9 @@ FAMILIES = [(fam_roundtrip, 130), (fam_equality, 130), (fam_integer_coordinates,
 
 
 def explore(ctx):
+    for cls in ('Polygon2D', 'Polyline2D', 'Polyline3D', 'LineSegment2D', 'LineSegment3D', 'Ray2D', 'Ray3D', 'Mesh2D', 'Mesh3D', 'Polyface3D',
+                'Face3D', 'Arc3D'):
+        fam_integer_coordinates(ctx, ctx.rng, cls)       # the hash-collision probe, every class on every run
     for fn, n in FAMILIES:
         for _ in range(ctx.n(n, n * 10)):
             fn(ctx, ctx.rng)
